@@ -193,6 +193,16 @@ func (w *World) MissingDeps() (any bool, singleton bool, nonSingleton bool) {
 	return
 }
 
+// MultiOutput: the registration's constructor yields a primary and an
+// auxiliary service.
+func (w *World) MultiOutput(r int) bool {
+	switch w.Regs[r].Form {
+	case IdMulti, IdResObj, IdResObj2, IdMultiNamed, IdMultiGroup:
+		return true
+	}
+	return false
+}
+
 func (w *World) IsVoid(r int) bool {
 	return w.Regs[r].Form == IdVoid || w.Regs[r].Form == IdVoidErr
 }
@@ -301,9 +311,12 @@ func (m *Model) ensureSingleton(r int) {
 func (m *Model) store(tab map[Ident]*MInst, r int, mi *MInst) {
 	ids := m.W.Identities(r)
 	switch m.W.Regs[r].Form {
-	case IdMulti, IdResObj:
+	case IdMulti, IdResObj, IdResObj2, IdMultiNamed:
 		tab[ids[0]] = mi
 		tab[ids[1]] = mi.Peer
+	case IdMultiGroup:
+		tab[Ident{Type: ids[0].Type, Group: ids[0].Group, Key: memberKey(r)}] = mi
+		tab[Ident{Type: ids[1].Type, Group: ids[1].Group, Key: memberKey(r)}] = mi.Peer
 	case IdGroup, IdAsGroup:
 		tab[Ident{Type: ids[0].Type, Group: ids[0].Group, Key: memberKey(r)}] = mi
 	default:
@@ -338,7 +351,7 @@ func (m *Model) construct(r, node int) *MInst {
 			mi.ArgCount = append(mi.ArgCount, 1)
 		}
 	}
-	if f := w.Regs[r].Form; f == IdMulti || f == IdResObj {
+	if w.MultiOutput(r) {
 		ax := &MInst{ID: len(m.All), Reg: r, Aux: true, Owner: node, Peer: mi}
 		m.All = append(m.All, ax)
 		mi.Peer = ax
@@ -351,7 +364,7 @@ func (m *Model) construct(r, node int) *MInst {
 func (m *Model) resolveReg(t int, id Ident, node int) *MInst {
 	w := m.W
 	aux := false
-	if ids := w.Identities(t); len(ids) > 1 && (w.Regs[t].Form == IdMulti || w.Regs[t].Form == IdResObj) && id == ids[1] {
+	if ids := w.Identities(t); len(ids) > 1 && w.MultiOutput(t) && id == ids[1] {
 		aux = true
 	}
 	key := id
